@@ -84,6 +84,9 @@ def sameWorld (a b : World) : Bool :=
 
 def chk (c : Bool) (tag : String) : List String := if c then [] else [tag]
 
+/-- the pre-state as the transaction sees it: same data, the transaction's block -/
+def preAt (s : Step) : World := { s.pre with env := s.env }
+
 /-- vAMMs wired to this engine before and after (re-wiring is outside every property) -/
 def wiredVamms (s : Step) : List (Nat × Vamm.V × Vamm.V) :=
   s.pre.vamms.filterMap (fun p =>
@@ -351,7 +354,7 @@ def C06.check (s : Step) : List String :=
     let out := quoteMoved s v
     let penalty := out * s.pre.engine.cfg.liqFee / D
     let fee := penalty / 2
-    (match liqRatio s.pre v t with
+    (match liqRatio (preAt s) v t with
      | some r => chk (r ≤ (s.pre.engine.cfg.mmr : Int)) "liquidated-above-maintenance"
      | none => ["liquidation-ratio-undefined-but-liquidated"]) ++
     (if !hasPos s.post v t then
@@ -376,7 +379,7 @@ def C06.check (s : Step) : List String :=
 
 /-! ### C07: under-margined positions can always be liquidated -/
 def C07.precondition (s : Step) (v t : Nat) : Bool :=
-  let w := s.pre
+  let w := preAt s
   let p := pos w v t
   match w.vamm? v with
   | none => false
@@ -401,7 +404,7 @@ def C07.precondition (s : Step) (v t : Nat) : Bool :=
 /-- under-margined by the property's definition; `none` when the definition itself cannot be
     evaluated (e.g. the vAMM cannot read its oracle) -/
 def C07.underMargined (s : Step) (v t : Nat) : Option Bool :=
-  match exInt (Engine.queryMarginRatio s.pre.q s.pre.engine v t) with
+  match exInt (Engine.queryMarginRatio (preAt s).q s.pre.engine v t) with
   | none => none
   | some r => some (r < (s.pre.engine.cfg.mmr : Int))
 
@@ -411,7 +414,7 @@ def C07.check (s : Step) : List String :=
     if s.ok then [] else
     if C07.precondition s v t && C07.underMargined s v t == some true then
       -- the oracle-priced ratio may lift the ratio above maintenance only when the spread limit is exceeded
-      match liqRatio s.pre v t with
+      match liqRatio (preAt s) v t with
       | some r => if r < (s.pre.engine.cfg.mmr : Int) then ["liquidatable-position-could-not-be-liquidated"] else []
       | none => ["liquidatable-position-could-not-be-liquidated(oracle-unreadable)"]
     else []
@@ -431,7 +434,7 @@ def C11.check (s : Step) : List String :=
        let payment := trunc (x.st.net.toInt * pf) D
        chk (s.env.time ≥ x.st.nextFunding) "funding-settled-before-its-time" ++
        chk (y.st.nextFunding ≥ s.env.time + x.cfg.fundingPeriod / 2) "next-funding-less-than-half-a-period-away" ++
-       (match Vamm.queryTwapPrice x s.env x.cfg.twapInterval, s.pre.oracleTwap x.cfg.pricefeed x.cfg.twapInterval with
+       (match Vamm.queryTwapPrice x s.env x.cfg.twapInterval, (preAt s).oracleTwap x.cfg.pricefeed x.cfg.twapInterval with
         | .ok tv, .ok to => chk (pf == trunc (((tv : Int) - to) * x.cfg.fundingPeriod) 86400) "premium-fraction-formula"
         | _, _ => ["funding-settled-without-readable-twaps"]) ++
        (if payment > 0 then
